@@ -187,12 +187,13 @@ def entry_points(ex, uni, kind, donor):
         def thermal_cx_rate(s, d, dc, e, c):
             return ('tcx', d.name, dc, e.name, c)
     npts = 2
+    DC = 2      # a non-default donor charge: a front-end that drops the argument falls back to 0
 
     def point(element, n_e, t_e, coef_ion, coef_recom, coef_tcx=None, tcx_donor_density=0):
         ok = element is el and coef_ion == {i: ('ion', 'el', i) for i in range(Z)} and \
             coef_recom == {i: ('rec', 'el', i) for i in range(1, Z + 1)}
         if coef_tcx is not None:
-            ok = ok and coef_tcx == {i: ('tcx', 'don', 0, 'el', i) for i in range(1, Z + 1)}
+            ok = ok and coef_tcx == {i: ('tcx', 'don', DC, 'el', i) for i in range(1, Z + 1)}
         ex.prove(bool(ok), 'point-solver-gets-this-element-rate-tables')
         nd_eff = tcx_donor_density if coef_tcx is not None else 0
         flag = 1 if coef_tcx is not None else 0
@@ -232,7 +233,7 @@ def entry_points(ex, uni, kind, donor):
         ne, te, nd, nel = pick(ne_v), pick(te_v), pick(nd_v), pick(nel_v)
         other = np.array(other_v, dtype=dt).reshape(2, 2, 1)
         idxs = [(i, 0) for i in range(npts)]
-    kw = dict(tcx_donor=don, tcx_donor_n=nd if donor else None, tcx_donor_charge=0)
+    kw = dict(tcx_donor=don, tcx_donor_n=nd if donor else None, tcx_donor_charge=DC)
     fkw = dict(free_variable=fv) if fv is not None else {}
 
     fa = ib.fractional_abundance(AD(), el, ne, te, **kw, **fkw)
